@@ -12,7 +12,7 @@
 From Coq Require Import List NArith Bool Permutation.
 Import ListNotations.
 From SAV.util Require Import Topo Cycles TopoProofs TopoCycle TopoExtra CyclesSound CyclesComplete CyclesExact.
-From SAV.sql Require Import DDLOrder DDLOrderBase DDLOrderSort DDLOrderExec DDLOrderCreate DDLOrderDrop DDLOrderSorted DDLOrderHistory.
+From SAV.sql Require Import DDLOrder DDLOrderBase DDLOrderSort DDLOrderExec DDLOrderCreate DDLOrderDrop DDLOrderSorted DDLOrderHistory DDLOrderExplicit.
 
 (* ------------------------------------------------------------------ create_all *)
 (* ANY foreign-key graph (self references, parallel constraints, cycles of any shape, use_alter or
@@ -139,6 +139,41 @@ Theorem c14_sorted_tables_edge_reading_refuted :
     sorted_tables md = Ok (o, true) /\ ~ before o (fk_ref f) (t_name t).
 Proof. exact sorted_tables_edge_reading_refuted. Qed.
 Print Assumptions c14_sorted_tables_edge_reading_refuted.
+
+(* ------------------------------------------------------------------ explicit dependencies *)
+(* Table.add_is_dependent_on edges are never taken out of the sort - not even when the same (referred,
+   table) pair is also an FK edge that the cycle handling removes: CREATE TABLE follows them, DROP TABLE
+   follows them in reverse (sorted_tables: third clause of c14_sorted_tables_respects_acyclic_deps),
+   and a cycle made of them always raises *)
+Theorem c14_create_order_respects_explicit_deps : forall existing checkfirst md o u,
+  create_plan existing checkfirst md = Plan o u ->
+  forall t p, In t (create_tables existing checkfirst md) -> In p (t_extra t) ->
+    In p (names (create_tables existing checkfirst md)) -> before (created_order o) p (t_name t).
+Proof. exact create_order_respects_explicit. Qed.
+Print Assumptions c14_create_order_respects_explicit_deps.
+
+Theorem c14_drop_order_respects_explicit_deps : forall existing checkfirst md o u,
+  drop_plan existing checkfirst md = Plan o u ->
+  forall t p, In t (drop_tables existing checkfirst md) -> In p (t_extra t) ->
+    In p (names (drop_tables existing checkfirst md)) -> before (dropped_order o) (t_name t) p.
+Proof. exact drop_order_respects_explicit. Qed.
+Print Assumptions c14_drop_order_respects_explicit_deps.
+
+Theorem c14_drop_all_explicit_cycle_raises : forall existing checkfirst md,
+  (exists w, cycle (fixed (drop_tables existing checkfirst md)) w /\
+             incl w (names (drop_tables existing checkfirst md))) ->
+  drop_plan existing checkfirst md = ErrCircular.
+Proof. exact drop_explicit_cycle_raises. Qed.
+Print Assumptions c14_drop_all_explicit_cycle_raises.
+
+Example c14_ex_explicit_on_cycle_edge :
+  let md := [mktable 1 [mkfk 0 2 false true] [2]; mktable 2 [mkfk 0 1 false true] []]%N in
+  create_plan [] false md =
+    Plan [CreateT 2 []; CreateT 1 []]%N [AddFK 1 (mkfk 0 2 false true); AddFK 2 (mkfk 0 1 false true)]%N /\
+  drop_plan [] false md =
+    Plan [DropT 1; DropT 2]%N [DropFK 1 (mkfk 0 2 false true); DropFK 2 (mkfk 0 1 false true)]%N /\
+  sorted_tables md = Ok ([2; 1]%N, true).
+Proof. exact explicit_on_cycle_edge. Qed.
 
 (* ------------------------------------------------------------------ metadata histories *)
 (* The MetaData may be the result of any history of Table(...) definitions, MetaData.remove and
